@@ -91,8 +91,244 @@ def gen_c07(rng: random.Random, tier: str) -> dict:
     }
 
 
+# ------------------------------------------------------------------- C15
+def gen_c15(rng: random.Random, tier: str) -> dict:
+    topo = gen_topo(rng, p_attached=0.55)
+    big = tier == 'thorough'
+    cancels = rng.random() < 0.4
+    prog = tasktree.gen_program(
+        rng,
+        max_nodes=rng.choice([6, 12, 25, 40] + ([80, 120] if big else [])),
+        max_depth=rng.randint(2, 4), max_fanout=rng.randint(2, 5),
+        cancels=cancels, id_base=0,
+    )
+    funcs = preempt.WORKER_FUNCS + preempt.WORKER_CANCEL_FUNCS \
+        + preempt.SCHED_FUNCS
+    pol = swarm_policy(rng, topo, funcs)
+    if rng.random() < 0.35:
+        # bias towards a WAITING crossing a SUBMIT_BATCH: starve one
+        # boss->worker channel for a while
+        w = rng.choice(worker_names(topo))
+        a = rng.randrange(20, 600)
+        pol['starve'] = {'match': f'>{w}', 'from': a,
+                         'to': a + rng.randrange(30, 300)}
+    return {
+        'topo': topo,
+        'clients': [{'script': [{'op': 'compile', 'prog': prog}]}],
+        'policy': pol,
+        'faults': [],
+        'monitors': ['bookkeeping'],
+    }
+
+
+# ------------------------------------------------------------------- C12
+def client_script_c12(rng: random.Random, ci: int, nprog: int,
+                      max_nodes: int, base: int) -> list:
+    progs = []
+    for k in range(nprog):
+        mode = rng.choice(['compile', 'result', 'result', 'cancel',
+                           'cancel', 'abandon'])
+        prog = tasktree.gen_program(
+            rng, max_nodes=max_nodes, max_depth=rng.randint(2, 4),
+            max_fanout=rng.randint(2, 5), cancels=rng.random() < 0.7,
+            await_cancelled=rng.random() < 0.08,
+            id_base=base + 1000 * k,
+        )
+        progs.append((f't{k}', mode, prog))
+    script = []
+    tail = []
+    for name, mode, prog in progs:
+        if mode == 'compile':
+            script.append({'op': 'compile', 'prog': prog})
+            continue
+        script.append({'op': 'submit', 'as': name, 'prog': prog})
+        if mode == 'result':
+            tail.append([{'op': 'result', 't': name}])
+        elif mode == 'cancel':
+            ops = []
+            if rng.random() < 0.3:
+                ops.append({'op': 'sleep', 'd': 0.01})   # cancel when idle
+            ops.append({'op': 'cancel', 't': name})
+            if rng.random() < 0.15:
+                ops.append({'op': 'result', 't': name})  # must fail
+            if rng.random() < 0.5:
+                # cancel right away, before later submits
+                script.extend(ops)
+            else:
+                tail.append(ops)
+    rng.shuffle(tail)
+    # a result() after cancel disconnects the client: keep it last
+    tail.sort(key=lambda ops: any(o['op'] == 'result' for o in ops)
+              and any(o['op'] == 'cancel' for o in ops))
+    for ops in tail:
+        script.extend(ops)
+    return script
+
+
+def gen_c12(rng: random.Random, tier: str) -> dict:
+    big = tier == 'thorough'
+    topo = gen_topo(rng, p_attached=0.45)
+    ncl = 1 if topo['kind'] == 'attached' else rng.choice([1, 2, 2, 3])
+    clients = []
+    for ci in range(ncl):
+        nprog = rng.choice([1, 1, 2, 3])
+        mn = rng.choice([6, 12, 20] + ([40, 60] if big else []))
+        clients.append({'script': client_script_c12(
+            rng, ci, nprog, mn, base=10000 * ci)})
+    funcs = preempt.WORKER_FUNCS + preempt.WORKER_CANCEL_FUNCS
+    if rng.random() < 0.4:
+        funcs = funcs + preempt.SERVER_FUNCS
+    faults = []
+    if ncl > 1 and rng.random() < 0.15:
+        faults.append({'kind': 'crash',
+                       'victim': {'kind': 'client',
+                                  'index': rng.randrange(ncl)},
+                       'trigger': {'type': 'steps_after_first_op',
+                                   'n': rng.randrange(5, 600)}})
+    return {
+        'topo': topo,
+        'clients': clients,
+        'policy': swarm_policy(rng, topo, funcs),
+        'faults': faults,
+    }
+
+
+# ------------------------------------------------------------------- C13
+REQ_OPS = ['status', 'result', 'cancel']
+
+
+def gen_c13(rng: random.Random, tier: str) -> dict:
+    big = tier == 'thorough'
+    m = rng.randint(1, 3)
+    topo = {'kind': 'detached',
+            'managers': [rng.randint(1, 2) for _ in range(m)]}
+    ncl = rng.choice([1, 2, 2, 3])
+    clients = []
+    mode = rng.random()
+    for ci in range(ncl):
+        script = []
+        nprog = rng.choice([1, 1, 2, 3])
+        names = []
+        for k in range(nprog):
+            prog = tasktree.gen_program(
+                rng, max_nodes=rng.choice([4, 8, 15] + ([30] if big else [])),
+                max_depth=rng.randint(2, 3), max_fanout=rng.randint(2, 4),
+                raises=rng.choice([0, 0, 0, 1, 1, 2]), logs=True,
+                id_base=10000 * ci + 1000 * k,
+            )
+            script.append({'op': 'submit', 'as': f't{k}', 'prog': prog})
+            names.append(f't{k}')
+        if mode < 0.3 and ci == 0:
+            # a short history the property text names: an ordered pair of
+            # requests on one id of a given class
+            cls = rng.choice(['own', 'own', 'foreign', 'unknown'])
+            if cls == 'own':
+                t = names[0]
+            elif cls == 'foreign' and ncl > 1:
+                t = 'c1:t0'
+            else:
+                t = 'unknown'
+            a, b = rng.choice(REQ_OPS), rng.choice(REQ_OPS)
+            if rng.random() < 0.3:
+                script.append({'op': 'sleep', 'd': 0.01})
+            script.append({'op': a, 't': t})
+            script.append({'op': b, 't': t})
+        else:
+            nreq = rng.randint(1, 6 if not big else 16)
+            for _ in range(nreq):
+                r = rng.random()
+                if r < 0.65:
+                    t = rng.choice(names)
+                elif r < 0.85 and ncl > 1:
+                    other = rng.choice([x for x in range(ncl) if x != ci])
+                    t = f'c{other}:t0'
+                else:
+                    t = 'unknown'
+                if rng.random() < 0.15:
+                    script.append({'op': 'sleep', 'd': 0.01})
+                script.append({'op': rng.choice(REQ_OPS), 't': t})
+        if rng.random() < 0.5:
+            prog = tasktree.gen_program(
+                rng, max_nodes=6, max_depth=2, max_fanout=3, logs=True,
+                id_base=10000 * ci + 9000)
+            script.append({'op': 'compile', 'prog': prog})
+        # probe: is the server still answering?
+        script.append({'op': 'status', 't': 'unknown'})
+        clients.append({'script': script})
+    funcs = preempt.WORKER_FUNCS + preempt.SERVER_FUNCS
+    return {
+        'topo': topo,
+        'clients': clients,
+        'policy': swarm_policy(rng, topo, funcs, p_preempt=0.5),
+        'faults': [],
+    }
+
+
+# ------------------------------------------------------------------- C14
+def gen_fault(rng: random.Random, topo: dict) -> dict:
+    from dst import faults as faults_mod
+    if topo['kind'] == 'detached' and rng.random() < 0.35:
+        victim = {'kind': 'manager',
+                  'index': rng.randrange(len(topo['managers']))}
+        classes = ['got-batch', 'sent-result', 'sent-submit',
+                   'sent-waiting', 'fwd-result']
+    else:
+        victim = {'kind': 'worker', 'index': rng.randrange(9)}
+        classes = ['got-batch', 'body-start', 'sent-result',
+                   'sent-waiting', 'sent-submit', 'fwd-result']
+    if rng.random() < 0.55:
+        trig = {'type': 'event', 'cls': rng.choice(classes),
+                'nth': rng.choice([1, 1, 2, 3])}
+    else:
+        trig = {'type': 'steps_after_first_op',
+                'n': rng.choice([1, 5, 20]) if rng.random() < 0.2
+                else rng.randrange(1, 900)}
+    kind = 'sever' if rng.random() < 0.2 else 'crash'
+    return {'kind': kind, 'victim': victim, 'trigger': trig,
+            'lose_tail': kind == 'crash' and rng.random() < 0.25}
+
+
+def gen_c14(rng: random.Random, tier: str) -> dict:
+    big = tier == 'thorough'
+    topo = gen_topo(rng, p_attached=0.5)
+    ncl = 1 if topo['kind'] == 'attached' else rng.choice([1, 1, 2, 3])
+    clients = []
+    for ci in range(ncl):
+        script = []
+        for k in range(rng.choice([1, 1, 2])):
+            prog = tasktree.gen_program(
+                rng, max_nodes=rng.choice([6, 12, 25] + ([60] if big else [])),
+                max_depth=rng.randint(2, 4), max_fanout=rng.randint(2, 5),
+                id_base=10000 * ci + 1000 * k)
+            if rng.random() < 0.6:
+                script.append({'op': 'compile', 'prog': prog})
+            else:
+                script.append({'op': 'submit', 'as': f't{k}', 'prog': prog})
+                script.append({'op': 'result', 't': f't{k}'})
+        if rng.random() < 0.3:
+            script.append({'op': 'status', 't': 'unknown'})
+        clients.append({'script': script})
+    r = rng.random()
+    faults = []
+    if r >= 0.3:
+        faults.append(gen_fault(rng, topo))
+        if r >= 0.8:
+            faults.append(gen_fault(rng, topo))
+    funcs = preempt.WORKER_FUNCS + preempt.SERVER_FUNCS
+    return {
+        'topo': topo,
+        'clients': clients,
+        'policy': swarm_policy(rng, topo, funcs, p_preempt=0.4),
+        'faults': faults,
+    }
+
+
 GENS = {
     'C07': gen_c07,
+    'C14': gen_c14,
+    'C13': gen_c13,
+    'C12': gen_c12,
+    'C15': gen_c15,
 }
 
 
